@@ -19,7 +19,12 @@ Checked (nothing of it goes into the Generated file; a failure is an ExtractionE
         ({pool_id: "_" | name, capacities|labels: dict} resp. {pool: name});
       - from_json looks at <FIELD_POOL_ID> first and <FIELD_POOL> second (an entry holding both is a definition), an entry
         with neither raises DelegationException, <SINGLE_POOL_NAME> under <FIELD_POOL_ID> is a single-resource delegation,
-        and None / '' / <NEO4j_NONE> give None.
+        and None / '' / <NEO4j_NONE> give None;
+      - THE SENTINEL TEST IS EQUALITY (the model's `pool = some singlePoolName`, `pid = singlePoolName`): names that merely start
+        with, end with, contain, double or pad <SINGLE_POOL_NAME>, look like it, or spell <NEO4j_NONE> are ordinary pool names at
+        every site - from_json reads them as a definition / reference of that pool, to_json writes them, Delegation(...), Pool(...)
+        and Pools.add_pool accept them - while exactly <SINGLE_POOL_NAME> is refused by the three constructors' sites and, under
+        <FIELD_POOL>, by from_json.
 """
 import ast
 import importlib
@@ -167,6 +172,53 @@ def key_vocab(fn, tree, ns):
 # behavioural probes
 
 
+def lookalikes(C):
+    """pool names that are NOT the sentinel but related to it (prefix / suffix / infix / doubled / padded / look-alike /
+    the spellings of NEO4j_NONE)"""
+    S, N = C.SINGLE_POOL_NAME, C.NEO4j_NONE
+    out = [S + "x", S + "mgmt", "x" + S, S + S, " " + S, S + " ", "a" + S + "b", S + "\u200b", "\uff3f", N, N.lower(), N + " ", S + N]
+    return [x for x in dict.fromkeys(out) if x != S]
+
+
+def _raises(fn):
+    try:
+        return ("ok", fn())
+    except Exception as e:
+        return ("err", type(e).__name__)
+
+
+def _probe_sentinel_sites(dm, cl, C):
+    """the constructors' reserved-name test: equality with SINGLE_POOL_NAME, nothing wider and nothing narrower"""
+    F, T = dm.DelegationFormat, dm.DelegationType
+    S = C.SINGLE_POOL_NAME
+    n = 0
+    for t in T:
+        for nm in lookalikes(C) + [S]:
+            reserved = nm == S
+            for f in (F.PoolDefinition, F.PoolReference):
+                r = _raises(lambda: dm.Delegation(atype=t, delegation_id="probe", aformat=f, pool_id=nm))
+                ok = (r == ("err", "DelegationException")) if reserved else (r[0] == "ok" and r[1].get_pool_name() == nm and r[1].get_format() == f)
+                if not ok:
+                    raise ExtractionError("Delegation(%s, pool_id=%r) -> %s; the model %s" % (
+                        f.name, nm, r if r[0] == "err" else (r[1].get_format().name, r[1].get_pool_name()),
+                        "raises DelegationException" if reserved else "accepts the name as it is"))
+            r = _raises(lambda: dm.Pool(atype=t, pool_id=nm, delegation_id="d", defined_on="n1", defined_for=["n2"]))
+            ok = (r == ("err", "PoolException")) if reserved else (r[0] == "ok" and r[1].get_pool_id() == nm)
+            if not ok:
+                raise ExtractionError("Pool(pool_id=%r) -> %s; the model %s" % (nm, r[1] if r[0] == "err" else r[1].get_pool_id(),
+                                                                               "raises PoolException" if reserved else "accepts the name"))
+            p = dm.Pool(atype=t, pool_id="probe_tmp", delegation_id="d", defined_on="n1", defined_for=["n2"])
+            p.pool_id = nm
+            ps = dm.Pools(atype=t)
+            r = _raises(lambda: ps.add_pool(pool=p))
+            ok = (r == ("err", "PoolException") and not ps.pool_by_id) if reserved else (r[0] == "ok" and list(ps.pool_by_id.keys()) == [nm])
+            if not ok:
+                raise ExtractionError("Pools.add_pool of a pool named %r -> %s, pools %s; the model %s" % (
+                    nm, r[1] if r[0] == "err" else "accepted", list(ps.pool_by_id.keys()), "raises PoolException" if reserved else "stores it under its name"))
+            n += 4
+    return n
+
+
 def _probe(dm, cl, C):
     """dispatch behaviour of to_json / from_json on the imported classes; returns a dict for the report"""
     F, T = dm.DelegationFormat, dm.DelegationType
@@ -195,6 +247,21 @@ def _probe(dm, cl, C):
                 raise ExtractionError("to_json probe (%s, %s): wrote %s, the model writes %s" % (t.name, f.name, got, want))
             if f != F.PoolReference and list(got["probe"].keys()) != [C.FIELD_POOL_ID, det_key]:
                 raise ExtractionError("to_json probe (%s, %s): key order %s" % (t.name, f.name, list(got["probe"].keys())))
+        # ---- to_json: a pool name related to the sentinel is written as it is
+        for nm in lookalikes(C):
+            for f in (F.PoolDefinition, F.PoolReference):
+                try:
+                    d = dm.Delegation(atype=t, delegation_id="probe", aformat=f, pool_id=nm)
+                    if f != F.PoolReference:
+                        d.set_details(det())
+                    ds = dm.Delegations(atype=t)
+                    ds.add_delegations(d)
+                    got = json.loads(ds.to_json())
+                except Exception as e:
+                    raise ExtractionError("to_json probe (%s, %s of pool %r) raised %s: %s" % (t.name, f.name, nm, type(e).__name__, e))
+                want = {"probe": {C.FIELD_POOL: nm} if f == F.PoolReference else {C.FIELD_POOL_ID: nm, det_key: dd}}
+                if got != want:
+                    raise ExtractionError("to_json probe (%s, %s of pool %r): wrote %s, the model writes %s" % (t.name, f.name, nm, got, want))
 
         # ---- from_json: dispatch order and sentinels
         def dec(entry):
@@ -218,7 +285,13 @@ def _probe(dm, cl, C):
             ("empty entry", {}, "DelegationException"),
             ("details key missing", {C.FIELD_POOL_ID: "p"}, "KeyError"),
             ("other type's details only", {C.FIELD_POOL_ID: "p", oth_key: {}}, "KeyError"),
+            ("reference to the reserved name", {C.FIELD_POOL: C.SINGLE_POOL_NAME}, "DelegationException"),
         ]
+        # the single-resource marker is recognised by EQUALITY: a name related to it is a pool name
+        for nm in lookalikes(C):
+            expect.append(("pool_id %r (not the sentinel) is a definition of that pool" % nm, {C.FIELD_POOL_ID: nm, det_key: dd},
+                           ("PoolDefinition", nm, (tn, dd), t.name)))
+            expect.append(("pool %r (not the sentinel) is a reference to that pool" % nm, {C.FIELD_POOL: nm}, ("PoolReference", nm, None, t.name)))
         for what, entry, want in expect:
             got = dec(entry)
             if got != want:
@@ -230,7 +303,8 @@ def _probe(dm, cl, C):
                 r = type(e).__name__
             if r is not None:
                 raise ExtractionError("from_json probe (%s): %r -> %r, expected None" % (t.name, text, r))
-        rep[t.name] = len(expect) + len(list(F)) + 3
+        rep[t.name] = len(expect) + len(list(F)) + 3 + 2 * len(lookalikes(C))
+    rep["sentinel_sites"] = _probe_sentinel_sites(dm, cl, C)
     return rep
 
 
